@@ -40,10 +40,12 @@ def run(ck):
         import json
         hists = [json.load(open(ck.replay_file))["replay"]["history"]]
     corpus = [[[("a1", 0)], [("b2", 0)], [("c3", 0), ("d4", 0), ("e5", 0)]],
-              [[("a1", 1), ("b2", 1), ("c3", 0)], [("d4", 1)], [("e5", 0)]]]
+              [[("a1", 1), ("b2", 1), ("c3", 0)], [("d4", 1)], [("e5", 0)]],
+              [[("a1", 2)], [("b2", 2)], [(c + "9", 2) for c in "cdefghijklmnopqrstuvwxyzABCD"], [(c + "8", 2) for c in "cdefghijklmnopqrstuvwxyzABCD"]],
+              [[("a1", 1)], [("", 1)], [("c3", 1)]]]
     if not hists:
         for h in corpus:
-            hists.append([[{"id": i + "x%d" % k, "q": "q" + i, "user": "u" + i, "body": "b" + i, "svc": s} for k, (i, s) in enumerate(b)] for b in h])
+            hists.append([[{"id": (i or "e") + "x%d" % k, "q": "q" + i, "user": ("u" + i) if i else "", "body": "b" + i, "svc": s} for k, (i, s) in enumerate(b)] for b in h])
         while len(hists) < nh:
             h = []
             n = 0
@@ -53,8 +55,12 @@ def run(ck):
                 for _ in range(size):
                     n += 1
                     tag = "%s%d" % (ck.rng.choice("abcdefgh"), ck.rng.randint(0, 999))
-                    b.append({"id": "i" + tag + "n%d" % n, "q": "q" + tag + "n%d" % n, "user": "u" + tag + "n%d" % n,
-                              "body": "b" + tag + "n%d" % n, "svc": ck.rng.randint(0, 1)})
+                    svc = ck.rng.randint(0, 2)
+                    user = "u" + tag + "n%d" % n
+                    if svc == 1 and ck.rng.random() < 0.3:
+                        user = ""        # an optional URL part left empty: must not inherit another request's value
+                    b.append({"id": "i" + tag + "n%d" % n, "q": "q" + tag + "n%d" % n, "user": user,
+                              "body": "b" + tag + "n%d" % n, "svc": svc})
                 h.append(b)
             hists.append(h)
     total, nontriv, mism_cases = 0, 0, []
@@ -91,12 +97,14 @@ def run(ck):
                 st, body = resp.get(idx, (None, ""))
                 got = dict(kv.split("=", 1) for kv in body.strip().split("|") if "=" in kv)
                 want = {"parts": r["id"], "bare": r["id"], "user": r["user"], "body": r["body"],
-                        "mine": r["id"] if r["svc"] == 0 else r["user"]}
+                        "mine": r["user"] if r["svc"] == 1 else r["id"]}
                 if r["svc"] == 1:
                     want["sub"] = r["user"]
+                if r["svc"] == 2:
+                    want["pk"] = "<%s>%s" % (r["user"], r["user"])
                 bad = [k for k, v in want.items() if got.get(k) != v]
                 if st != 200 or bad or r["q"] not in got.get("q", ""):
-                    other = [x for x in flat if x is not r and any(x[k] and x[k] in body for k in ("id", "user", "body", "q"))]
+                    other = [x for x in flat if x is not r and any(x[k] and x[k] != r[k] and x[k] in body for k in ("id", "user", "body", "q"))]
                     ck.violation("request-sees-foreign-value" if other else "response-wrong",
                                  "request %s (svc %d, batch of %d) answered status %s %r; fields %s differ from its own values%s" % (
                                      r["id"], r["svc"], len(b), st, body.strip()[:200], bad,
@@ -123,7 +131,7 @@ def run(ck):
         return ids.setdefault(s, len(ids) + 100)
 
     def req_term(r):
-        parts = [(1, nid(r["id"]))] + ([(2, nid(r["user"]))] if r["svc"] == 1 else []) + [(3, 1)]
+        parts = [(1, nid(r["id"]))] + ([(2, nid(r["user"] or "<empty>"))] if r["svc"] == 1 else []) + [(3, 1)]
         consts = [(10, nid(r["user"])), (11, nid(r["body"])), (12, nid(r["q"]))]
         return "{| consts := [%s]; parts := [%s] |}" % (";".join("(%d,%d)" % c for c in consts), ";".join("(%d,%d)" % p for p in parts))
     cs = []
@@ -131,9 +139,9 @@ def run(ck):
         first = next(x for b in h for x in b if x["svc"] == r["svc"])
         cache = "None" if first is r else "cache_after None %s" % req_term(first)
         obs_bare = nid(got.get("bare", "?"))
-        obs_sub = nid(got.get("sub", "?")) if r["svc"] == 1 else 0
+        obs_sub = nid(got.get("sub", "?") or "<empty>") if r["svc"] == 1 else 0
         cs.append("((%s), %s, %d, %d)" % (cache, req_term(r), obs_bare, obs_sub))
-    part_keys = {0: {"services", "verif", "id"}, 1: {"services", "verif2", "id", "sub"}}
+    part_keys = {0: {"services", "verif", "id"}, 1: {"services", "verif2", "id", "sub"}, 2: {"services", "verif3", "id"}}
     dumped = []
     for svc, names in sorted(names_dump.items()):
         for n in sorted(names):
